@@ -203,6 +203,18 @@ P("C10", "the format-string parser is total and memory-safe on every format stri
               "thorough": "all strings len<=5 over the 19-symbol specifier alphabet x 7 argument lists x 4 validation selectors"},
   dbits={"quick": 23, "thorough": 26})
 
+P("C17", "all output sinks emit the same bytes for the same format call", "sinks",
+  level_text=("runtime monitoring: for generated format strings and typed argument lists, ST::printf into an open_memstream FILE*, ST::writef into char / wchar_t / char16_t / char32_t "
+              "ostringstreams and ST::format_latin_1 run under ASan+UBSan and are compared with ST::format of the same call (byte-identical, resp. its UTF-16/32 or Latin-1->UTF-8 transcoding by the "
+              "reference encoders); operator<< of ST::string into the four stream types is compared with the transcoded contents and operator>> with what a std::basic_string extraction yields"),
+  technique="differential runtime monitoring across sinks (ST::format as the pivot, reference transcoders) under ASan+UBSan",
+  rule=("a case is (format string, typed argument list) through 7 sinks, or a text inserted into 4 stream types / a token stream extracted from 2; distinct by (shape, format bytes, output) resp. text; "
+        "evaluations count sink calls; format calls that ST::format itself rejects are counted separately and not compared"),
+  assumptions=["compared only when ST::format succeeds", "pad characters are ASCII and precision cuts only ASCII text, so every chunk handed to a wide sink is valid by itself (chunk-wise transcoding is how those sinks work)",
+               "U+FFFF is not compared on char16_t streams: libstdc++ char_traits<char16_t> maps it to U+FFFD (eof collision) inside the stream",
+               "extraction is exercised for char and wchar_t streams (libstdc++ has no ctype facet for char16_t/char32_t, so std::basic_string extraction itself fails there)"],
+  dbits={"quick": 22, "thorough": 25})
+
 _PENDING = "check not registered yet in this revision of /verif (harness under construction; nothing is claimed)"
 for _p in ["C%02d" % i for i in range(1, 21)]:
     if _p not in PROPS:
